@@ -45,10 +45,31 @@ def resolution(fmt):
     m = re.match(r"^%(\d*)\.(\d+)m$", fmt)
     if m:
         return SEXA_UNITS[int(m.group(2))]
-    m = re.match(r"^%[-+ 0#]*(\d*)(?:\.(\d+))?([dfi])$", fmt)
+    m = re.match(r"^%[-+ 0#]*(\d*)(?:\.(\d+))?([dfieEgG])$", fmt)
     if not m:
         raise ValueError(fmt)
+    if m.group(3) in "eEgG":
+        raise ValueError("the resolution of %s depends on the value: use resolution_at" % fmt)
     if m.group(3) in "di":
         return Fraction(1)
     prec = int(m.group(2)) if m.group(2) is not None else 6
     return Fraction(1, 10**prec)
+
+
+def resolution_at(fmt, v):
+    """resolution unit of a format at the value v (Fraction): for the exponent conversions the unit is one unit of
+    the last significant digit printf keeps (%.Ne: N+1 significant digits; %.Pg: P significant digits, P=0 -> 1)."""
+    m = re.match(r"^%[-+ 0#]*(\d*)(?:\.(\d+))?([eEgG])$", fmt)
+    if not m:
+        return resolution(fmt)
+    prec = int(m.group(2)) if m.group(2) is not None else 6
+    sig = prec + 1 if m.group(3) in "eE" else max(prec, 1)
+    a = abs(Fraction(v))
+    if a == 0:
+        return Fraction(1, 10**sig)
+    e = 0
+    while Fraction(10) ** (e + 1) <= a:
+        e += 1
+    while Fraction(10) ** e > a:
+        e -= 1
+    return Fraction(10) ** (e - sig + 1)
